@@ -207,6 +207,16 @@ def run(ctx, chk):
             if root[0] != "inst":
                 break
             c = f.insts[root[1]]
+            if c.op == "alloca" and ("load",) not in tuple(steps):
+                # a local working copy of a struct (`struct S tmp = *p;`): the location is the corresponding one of *p
+                srcs = []
+                for m_ in f.all_insts():
+                    if m_.op == "call" and (m_.callee or "").startswith("llvm.memcpy") and strip_casts(m_.operands[0]) is c:
+                        srcs.append(apath(m_.operands[1]))
+                if len(srcs) == 1 and srcs[0][0][0] != "inst":
+                    root, steps = srcs[0][0], tuple(srcs[0][1]) + tuple(steps)
+                    continue
+                break
             h = prog.funcs.get(c.callee) if c.op == "call" and c.callee else None
             if h is None or not h.internal:
                 break
